@@ -59,6 +59,186 @@ def sinks_in(fam, mod, cname, mname, fn, T, dicts):
                 yield "json-stringify", n, "JSON.stringify(%s)" % s(a)
 
 
+def declared_lookup_rule(fam, mod, rep, rid):
+    """validate() of the object class reads a declared property with `input[k]` - through the prototype chain, so class
+    instances with accessors and objects that inherit a member are accepted, as TypeScript's structural typing has it.
+    parseAfterValidation() then has to copy the property from the same place.  If its only route to a declared key is
+    the list of the input's OWN keys (`Object.keys(input)`, a `hasOwnProperty.call(input, k)` guard), an accepted input
+    yields data without the property: safeParse succeeds and the returned value is rejected by the same validator.
+    Decided per class with a record of declared members, over parseAfterValidation and the private methods it reaches:
+    a COPY SITE is a call `this.F[k].parseAfterValidation(ctx, X[k])`.  When the `validate` call on `X[k]` for declared
+    k runs under no own-ness test: (a) no copy site whose key ranges over the declared keys is guarded by an own-ness
+    test of X; (b) next to every copy site whose key comes from somewhere else (the input's own keys) there is - in the
+    same function and not in a branch excluded by it - a copy site that ranges over the declared keys."""
+    from rules.c16 import schema_reachable_methods
+    OWN = re.compile(r"hasOwn\w*\.call\((\w+),|Object\.hasOwn\((\w+),|Object\.keys\((\w+)\)\.includes")
+    n = 0
+    for cname, c in sorted(fam.classes.items()):
+        mv, mp = c.methods.get("validate"), c.methods.get("parseAfterValidation")
+        if not mv or not mp or mv["function"].get("body") is None or mp["function"].get("body") is None:
+            continue
+
+        def sites(fn, meth):
+            """calls this.F[k].<meth>(ctx, X[k]) with the range of the key and the own-ness tests they run under"""
+            al = ts_common.local_aliases(fn)
+            out = []
+            for call in walk(fn):
+                if call["type"] != "CallExpression":
+                    continue
+                mc = method_call(call)
+                if not mc or mc[1] != meth or len(mc[2]) < 2:
+                    continue
+                recv = unparen(mc[0])
+                if recv.get("type") == "Identifier" and recv["value"] in al:
+                    recv = unparen(al[recv["value"]])
+                if not (recv.get("type") == "MemberExpression" and recv["property"]["type"] == "Computed" and s(unparen(recv["object"])).startswith("this.")):
+                    continue
+                fld = s(unparen(recv["object"]))[5:]
+                key = s(unparen(recv["property"]["expression"]))
+                a1 = unparen(mc[2][1])
+                if a1.get("type") == "Identifier" and a1["value"] in al:
+                    a1 = unparen(al[a1["value"]])
+                if not (a1.get("type") == "MemberExpression" and a1["property"]["type"] == "Computed" and unparen(a1["object"]).get("type") == "Identifier"
+                        and s(unparen(a1["property"]["expression"])) == key):
+                    continue
+                base = unparen(a1["object"])["value"]
+                src = None
+                for lp in walk(fn):
+                    if lp["type"] in ("ForOfStatement", "ForInStatement") and any(x is call for x in walk(lp["body"])) and key in [x.get("value") for x in walk(lp["left"]) if x.get("type") == "Identifier"]:
+                        r_ = unparen(lp["right"])
+                        hops = 0
+                        while r_.get("type") == "Identifier" and r_["value"] in al and hops < 3:
+                            r_ = unparen(al[r_["value"]])
+                            hops += 1
+                        src = s(r_)
+                ka = ts_common.known_atoms(fn, call)
+                own = False
+                for t_, pol in ka.items():
+                    m_ = OWN.search(t_)
+                    if pol and m_ and (m_.group(1) or m_.group(2) or m_.group(3)) == base:
+                        own = True
+                declared = src is not None and ("this.%s" % fld) in src and ("Object.keys(%s)" % base) not in src
+                out.append({"call": call, "field": fld, "own_guard": own, "declared_range": declared, "src": src, "atoms": ka, "fn": fn})
+            return out
+        vs, ps_ = [], []
+        for m_ in sorted(schema_reachable_methods(c, roots=("validate",))):
+            vs += sites(c.methods[m_]["function"], "validate")
+        units = [(m_, c.methods[m_]["function"]) for m_ in sorted(schema_reachable_methods(c, roots=("parseAfterValidation",)))]
+        for m_, fn in units:
+            for x in sites(fn, "parseAfterValidation"):
+                x["unit"] = m_
+                ps_.append(x)
+        if not vs or not ps_:
+            continue
+        inclusive = [x for x in vs if x["declared_range"] and not x["own_guard"]]
+        if not inclusive:
+            continue
+        fld = inclusive[0]["field"]
+        here = [x for x in ps_ if x["field"] == fld]
+
+        def exclusive(a, b):
+            return any(t_ in b["atoms"] and b["atoms"][t_] != pol for t_, pol in a["atoms"].items())
+        for x in here:
+            n += 1
+            lab = "%s.%s/%s" % (cname, x["unit"], "declared-range" if x["declared_range"] else "other-range")
+            if x["declared_range"]:
+                ok = not x["own_guard"]
+                why = "copies the declared property only under an own-ness test of the input"
+            else:
+                ok = any(y is not x and y["fn"] is x["fn"] and y["declared_range"] and not y["own_guard"] and not exclusive(x, y) for y in here)
+                why = "reaches declared properties through `%s` only - a list that holds the input's own keys - and no loop over the declared keys completes it" % (x["src"] or "?")[:40]
+            rep.ob(rid, lab, ok,
+                   "%s.validate reads declared properties with `input[k]` (own or inherited) but %s.%s %s: an input that inherits a declared property - a class instance with an accessor, Object.create(proto) - is accepted, and the returned data lacks the property, so it is rejected by the same validator" % (cname, cname, x["unit"], why),
+                   mod.loc(x["call"]), sample={"class": cname, "method": x["unit"], "key_range": x["src"], "own_guard": x["own_guard"]})
+    rep.floor(rid, "sites of parseAfterValidation that copy declared properties", n, 2)
+
+
+def proto_safe_output_rule(fam, mod, rep, rid):
+    """`o[k] = v` on an object that has Object.prototype behind it is NOT a definition of the property k when k is
+    "__proto__": it calls the inherited setter, which replaces o's prototype when v is an object and does nothing
+    otherwise.  JSON.parse creates own `__proto__` properties, so such keys reach validators; a parse result built
+    with plain assignments loses the key (the returned data has fewer keys than the accepted input and - for a value
+    that is an object - inherits that object's members).  Decided for every computed-key assignment `o[k] = ..` in the
+    parseAfterValidation methods of the validator classes, and in module-level helpers they hand the object to, where o
+    is a local created by an object literal (or the helper's parameter) and k is not a literal: at the site k is known
+    to differ from "__proto__" (a guard `k === "__proto__"` on the other branch; the property is then defined with
+    Object.defineProperty), or o was created without a prototype."""
+    n = 0
+
+    def judge(label, fn, objs):
+        nonlocal n
+        for a in walk(fn):
+            if a["type"] != "AssignmentExpression" or a.get("operator") != "=":
+                continue
+            left = unparen(a["left"])
+            if left.get("type") != "MemberExpression" or left["property"]["type"] != "Computed":
+                continue
+            o = unparen(left["object"])
+            if o.get("type") != "Identifier" or o["value"] not in objs:
+                continue
+            k = unparen(left["property"]["expression"])
+            while k.get("type") in ("TsAsExpression", "TsNonNullExpression", "TsSatisfiesExpression"):
+                k = unparen(k["expression"])
+            if k.get("type") in ("StringLiteral", "NumericLiteral"):
+                continue
+            ka = ts_common.known_atoms(fn, a)
+            kt = s(k)
+            safe = any((t_.strip("()") in ('%s==="__proto__"' % kt, '"__proto__"===%s' % kt) and pol is False) or
+                       (t_.strip("()") in ('%s!=="__proto__"' % kt, '"__proto__"!==%s' % kt) and pol is True) for t_, pol in ka.items())
+            n += 1
+            rep.ob(rid, "%s/%s[%s]" % (label, o["value"], kt), safe,
+                   "%s writes the parse result with `%s[%s] = ..` where the key comes from the input: for an own key `__proto__` of the input (JSON.parse creates those) the assignment sets the result's prototype instead of defining the property - the key is missing from the returned data, and an object value becomes the data's prototype" % (label, o["value"], kt),
+                   mod.loc(a), sample={"site": label, "object": o["value"], "key": kt})
+    from rules.c16 import schema_reachable_methods
+    helpers_seen = set()
+
+    def obj_names(fn):
+        """identifiers of fn that can hold a result object: locals created by an object literal, parameters and
+        destructured fields that are not created as arrays"""
+        objs, arrays = set(), set()
+        for d_ in walk(fn):
+            if d_["type"] == "VariableDeclarator" and d_.get("init") is not None:
+                i_ = unparen(d_["init"])
+                while i_.get("type") in ("TsAsExpression", "TsSatisfiesExpression"):
+                    i_ = unparen(i_["expression"])
+                if d_["id"].get("type") == "Identifier":
+                    if i_.get("type") == "ObjectExpression":
+                        objs.add(d_["id"]["value"])
+                    elif i_.get("type") in ("ArrayExpression",) or (i_.get("type") == "NewExpression" and s(i_["callee"]) == "Array"):
+                        arrays.add(d_["id"]["value"])
+                elif d_["id"].get("type") == "ObjectPattern":
+                    for pp in d_["id"]["properties"]:
+                        v_ = pp.get("value") if pp["type"] == "KeyValuePatternProperty" else pp.get("key")
+                        if v_ is not None and v_.get("type") == "Identifier":
+                            objs.add(v_["value"])
+        return objs, arrays
+    for cname, c in sorted(fam.classes.items()):
+        mp = c.methods.get("parseAfterValidation")
+        if not mp or mp["function"].get("body") is None:
+            continue
+        for mname in sorted(schema_reachable_methods(c, roots=("parseAfterValidation",))):
+            fn = c.methods[mname]["function"]
+            objs, arrays = obj_names(fn)
+            if mname != "parseAfterValidation":
+                # a private method of the parse path may be handed the result object
+                objs |= {p_ for p_ in ts_common.fn_params(fn) if p_} - arrays
+            judge("%s.%s" % (cname, mname), fn, objs)
+            # module-level helpers handed one of those objects
+            for call in walk(fn):
+                if call["type"] == "CallExpression" and unparen(call["callee"]).get("type") == "Identifier":
+                    r_ = tsast.resolve_local_call(mod, cname, call)
+                    if r_ is None:
+                        continue
+                    hfn = r_[0]
+                    hps = ts_common.fn_params(hfn)
+                    handed = {hps[i_] for i_, a_ in enumerate(call["arguments"]) if i_ < len(hps) and hps[i_] and unparen(a_["expression"]).get("type") == "Identifier" and unparen(a_["expression"])["value"] in objs}
+                    nm = unparen(call["callee"])["value"]
+                    if handed and nm not in helpers_seen:
+                        helpers_seen.add(nm)
+                        judge(nm, hfn, handed)
+    rep.floor(rid, "computed-key writes into parse results", n, 1)
+
+
 def run(cx, rep):
     fam = ts_common.Family(cx)
     mod = fam.mod
@@ -511,6 +691,12 @@ def run(cx, rep):
     # ---------------------------------------------------------------- C03.13
     rep.rule("C03.13", "no decision rests on comparing the number of input keys with the number of declared keys")
     ts_common.key_count_rule(cx, rep, "C03.13")
+    # ---------------------------------------------------------------- C03.19
+    rep.rule("C03.19", "parse copies a declared property from wherever validate read it (own or inherited): its presence test is no stricter")
+    declared_lookup_rule(fam, mod, rep, "C03.19")
+    # ---------------------------------------------------------------- C03.20
+    rep.rule("C03.20", "a key taken from the input is never written into a parse result by plain assignment unless it is known not to be `__proto__`")
+    proto_safe_output_rule(fam, mod, rep, "C03.20")
     # ---------------------------------------------------------------- C03.16
     rep.rule("C03.16", "rendering a rejected value never converts a value of unknown type to a string implicitly where it can be a symbol or an object")
     ts_common.implicit_to_string_rule(cx, rep, "C03.16")
